@@ -162,7 +162,7 @@ theorem strict_varOperand : SNE varOperand := by unfold varOperand; sne_steps
 theorem strict_operandName : Strict operandName := by
   intro st a st' hi he
   unfold operandName at he
-  rcases currentStr_cases hi with ⟨v, hv, hty⟩ | ⟨hty, hv⟩ | ⟨_, hv⟩
+  rcases currentStr_cases hi with ⟨v, hv, hty⟩ | ⟨hty, msg, hv⟩
   · rw [bind_ok hv] at he
     by_cases hl : v.length > 0
     · rw [if_pos hl] at he
@@ -180,12 +180,11 @@ theorem strict_operandName : Strict operandName := by
         split at he <;> cases he
   · rw [bind_ok hv] at he
     have h1 : ("".length > 0) = False := by simp
-    have h2 : ((st.addError (tpMsg st)).cur.ty == TT.name) = false := by
+    have h2 : ((st.addError msg).cur.ty == TT.name) = false := by
       show (st.cur.ty == TT.name) = false
-      rw [hty]; rfl
+      rcases hty with h | h <;> (rw [h]; rfl)
     simp only [h1, if_false, getSt_bind, h2, Bool.false_eq_true] at he
     split at he <;> cases he
-  · rw [bind_run, hv] at he; cases he
 
 /-! ## Statements with nested statements -/
 
